@@ -220,7 +220,7 @@ func discoverDuringCall(c *ctx) {
 		reply := messages.GetDeviceResponse{SerialNumber: 5400009, IpAddress: net.IPv4(127, 0, 0, 7), SubnetMask: net.IPv4(255, 0, 0, 0),
 			Gateway: net.IPv4(127, 0, 0, 1), MacAddress: types.MacAddress{1, 2, 3, 4, 5, 6}, Version: 0x0892, Date: types.ToDate(2024, 1, 1)}
 		b, _ := codec.Marshal(reply)
-		return []step{{T / 4, b}}
+		return []step{{T / 4, b, false}}
 	})
 	sap := netip.MustParseAddrPort(silent.addr())
 	dap := netip.MustParseAddrPort(disc.addr())
@@ -258,7 +258,7 @@ func discoverParallel(c *ctx) {
 			reply := messages.GetDeviceResponse{SerialNumber: 5500001, IpAddress: net.IPv4(127, 0, 0, 1), SubnetMask: net.IPv4(255, 0, 0, 0),
 				Gateway: net.IPv4(127, 0, 0, 1), MacAddress: types.MacAddress{1, 2, 3, 4, 5, 6}, Version: 0x0892, Date: types.ToDate(2024, 1, 1)}
 			b, _ := codec.Marshal(reply)
-			return []step{{5 * time.Millisecond, b}}
+			return []step{{5 * time.Millisecond, b, false}}
 		})
 		ap := netip.MustParseAddrPort(rs.addr())
 		mk := func() uhppote.IUHPPOTE {
@@ -303,6 +303,64 @@ func discoverParallel(c *ctx) {
 	}
 }
 
+// discoverStraddle: replies still streaming in at the very moment the discovery window closes (one every half
+// millisecond from 20 ms before to 20 ms after the deadline). Which of them are listed is not specified; what is: every
+// entry is one of the replies sent, none twice, the call returns - and (under the race detector) the collector and the
+// returning caller do not touch the list at the same time
+func discoverStraddle(c *ctx) {
+	before := raceReports()
+	rs := newUDPResponder("127.0.0.1", func(req []byte) []step {
+		out := []step{}
+		for i := 0; i < 80; i++ {
+			reply := messages.GetDeviceResponse{SerialNumber: types.SerialNumber(5600001 + i), IpAddress: net.IPv4(127, 0, 0, 1), SubnetMask: net.IPv4(255, 0, 0, 0),
+				Gateway: net.IPv4(127, 0, 0, 1), MacAddress: types.MacAddress{1, 2, 3, 4, 5, 6}, Version: 0x0892, Date: types.ToDate(2024, 1, 1)}
+			b, _ := codec.Marshal(reply)
+			out = append(out, step{T - 20*time.Millisecond + time.Duration(i)*500*time.Microsecond, b, false})
+		}
+		return out
+	})
+	ap := netip.MustParseAddrPort(rs.addr())
+	var wg sync.WaitGroup
+	var mu sync.Mutex
+	bad := 0
+	for g := 0; g < 6; g++ {
+		wg.Add(1)
+		go func() {
+			defer wg.Done()
+			u := uhppote.NewUHPPOTE(types.BindAddrFrom(netip.MustParseAddr("127.0.0.1"), 0), types.BroadcastAddrFrom(ap.Addr(), ap.Port()),
+				types.ListenAddrFrom(netip.MustParseAddr("127.0.0.1"), 60001), T, nil, false)
+			for k := 0; k < 8*c.scale; k++ {
+				devs, err := u.GetDevices()
+				seen := map[uint32]bool{}
+				wrong := err != nil
+				for _, d := range devs {
+					id := uint32(d.SerialNumber)
+					if id < 5600001 || id > 5600080 || seen[id] {
+						wrong = true
+					}
+					seen[id] = true
+				}
+				if wrong {
+					mu.Lock()
+					bad++
+					mu.Unlock()
+				}
+			}
+		}()
+	}
+	wg.Wait()
+	rs.close()
+	time.Sleep(20 * time.Millisecond)
+	out := "consistent"
+	if bad > 0 {
+		out = fmt.Sprintf("inconsistent-lists=%d", bad)
+	}
+	if d := raceReports() - before; d > 0 {
+		out += fmt.Sprintf(" races=%d", d)
+	}
+	c.w.Emit("discover-straddle bind=0", out, "rdiscover/replies-at-the-deadline")
+}
+
 func streamRListen(c *ctx) {
 	r := c.r
 	for n := 0; n < 6*c.scale; n++ {
@@ -316,7 +374,13 @@ func streamRListen(c *ctx) {
 		case 5:
 			timeout = 5 * time.Millisecond
 		}
-		u := uhppote.NewUHPPOTE(types.BindAddrFrom(netip.MustParseAddr("127.0.0.1"), 0), types.BroadcastAddr{},
+		// every second client has a fixed bind port (the source of its REQUESTS: nothing to do with listening), and one of the
+		// two event senders happens to send from exactly that address and port
+		bindPort := 0
+		if n%2 == 0 {
+			bindPort = freePort()
+		}
+		u := uhppote.NewUHPPOTE(types.BindAddrFrom(netip.MustParseAddr("127.0.0.1"), uint16(bindPort)), types.BroadcastAddr{},
 			types.ListenAddrFrom(netip.MustParseAddr("127.0.0.1"), uint16(port)), timeout, nil, n%2 == 1)
 		racesBefore := raceReports()
 		res := []string{}
@@ -362,7 +426,14 @@ func streamRListen(c *ctx) {
 			bad := 0
 			senders := []net.Conn{}
 			for i := 0; i < 2; i++ {
-				s, err := net.Dial("udp4", fmt.Sprintf("127.0.0.1:%d", port))
+				var laddr *net.UDPAddr
+				if i == 1 && bindPort != 0 {
+					laddr = &net.UDPAddr{IP: net.IPv4(127, 0, 0, 1), Port: bindPort}
+				}
+				s, err := net.DialUDP("udp4", laddr, &net.UDPAddr{IP: net.IPv4(127, 0, 0, 1), Port: port})
+				if err != nil && laddr != nil {
+					s, err = net.DialUDP("udp4", nil, &net.UDPAddr{IP: net.IPv4(127, 0, 0, 1), Port: port})
+				}
 				if err == nil {
 					senders = append(senders, s)
 				}
@@ -539,11 +610,11 @@ func streamRDiscover(c *ctx) {
 			if r.Chance(1, 6) {
 				d = T + slack + time.Duration(r.Intn(50))*time.Millisecond // after the window
 			}
-			plan = append(plan, planned{d, uint32(6000001 + r.Intn(3)), rng.Pick(r, "valid", "valid", "valid", "short", "wrong-code", "bad-bcd", "long", "long64", "empty")})
+			plan = append(plan, planned{d, uint32(6000001 + r.Intn(3)), rng.Pick(r, "valid", "valid", "valid", "valid-other-port", "short", "wrong-code", "bad-bcd", "long", "long64", "empty")})
 		}
 		if n == 0 { // every run: over-long datagrams whose first 64 bytes are a valid reply, between two valid replies
 			plan = []planned{{5 * time.Millisecond, 6000001, "valid"}, {12 * time.Millisecond, 6000002, "long"}, {20 * time.Millisecond, 6000003, "long64"}, {28 * time.Millisecond, 6000002, "valid"},
-				{36 * time.Millisecond, 6000001, "empty"}, {44 * time.Millisecond, 6000003, "valid"}}
+				{36 * time.Millisecond, 6000001, "empty"}, {44 * time.Millisecond, 6000003, "valid"}, {52 * time.Millisecond, 6000001, "valid-other-port"}}
 		}
 		if n == 1 { // every run: 300 malformed datagrams within 60 ms, then two valid replies well inside the window
 			plan = []planned{}
@@ -578,7 +649,7 @@ func streamRDiscover(c *ctx) {
 				case "empty":
 					b = b[:0]
 				}
-				out = append(out, step{p.delay, b})
+				out = append(out, step{p.delay, b, p.class == "valid-other-port"}) // a reply is a reply, whatever source port it left from
 			}
 			return out
 		})
@@ -612,5 +683,6 @@ func streamRDiscover(c *ctx) {
 	}
 	discoverDuringCall(c)
 	discoverParallel(c)
+	discoverStraddle(c)
 	c.w.Notes = append(c.w.Notes, "rdiscover stream: GetDevices through the real driver against a responder that answers with 0..5 datagrams (valid / truncated / over-long with a valid 64-byte prefix / wrong function code / non-BCD date; duplicates of 3 serial numbers) at 3..100 ms or after the window, once 300 malformed datagrams followed by two valid replies; every second client with the debug flag on; the call lasts one timeout")
 }
